@@ -118,22 +118,20 @@ func (v *ScriptView) writeCreateSQLForAColumn(attrType *sysl.Type, tableName, at
 	if isPrimaryKey {
 		*primaryKeys = append(*primaryKeys, attrName)
 	}
-	if attrType.GetTypeRef() != nil {
-		path0, path1, isForeignKey := foreignKeyTarget(attrType)
+	if path0, path1, isForeignKey := foreignKeyTarget(attrType); isForeignKey {
 		datatype := visitedAttributes[path0+"."+path1]
 		s = fmt.Sprintf("  %s %s,\n",
 			attrName, datatype)
-		if isForeignKey {
-			fkName := strings.ToUpper(tableName + "_" + attrName + "_FK")
-			*foreignKeyConstraints = append(
-				*foreignKeyConstraints,
-				"  CONSTRAINT "+fkName+" FOREIGN KEY("+attrName+") REFERENCES "+path0+" ("+path1+"),")
-		} else {
+		fkName := strings.ToUpper(tableName + "_" + attrName + "_FK")
+		*foreignKeyConstraints = append(
+			*foreignKeyConstraints,
+			"  CONSTRAINT "+fkName+" FOREIGN KEY("+attrName+") REFERENCES "+path0+" ("+path1+"),")
+		visitedAttributes[tableName+"."+attrName] = datatype
+	} else {
+		if attrType.GetTypeRef() != nil {
 			v.warnf("table %s: the type of column %s is not a <table>.<column> reference; no foreign key is generated",
 				tableName, attrName)
 		}
-		visitedAttributes[tableName+"."+attrName] = datatype
-	} else {
 		if isAutoIncrement {
 			s = fmt.Sprintf("  %s %s,\n", attrName, "bigserial")
 			visitedAttributes[tableName+"."+attrName] = bigIntConst
@@ -163,8 +161,9 @@ func (v *ScriptView) writeCreateSQLForAColumn(attrType *sysl.Type, tableName, at
 
 func (v *ScriptView) writeModifySQLForAColumn(attrTypeOld, attrTypeNew *sysl.Type, tableName,
 	attrName string, primaryKeys *[]string, visitedAttributes map[string]string) (bool, bool) {
-	typeRefNew := attrTypeNew.GetTypeRef()
-	typeRefOld := attrTypeOld.GetTypeRef()
+	// only <table>.<column> references are foreign keys; any other named type is a column of the default type
+	refTable, refColumn, isForeignKeyNew := foreignKeyTarget(attrTypeNew)
+	oldTable, oldColumn, isForeignKeyOld := foreignKeyTarget(attrTypeOld)
 	primaryKeyChanged := false
 
 	isAutoIncrementOld, isPrimaryKeyOld := isAutoIncrementAndPrimaryKey(attrTypeOld)
@@ -179,14 +178,9 @@ func (v *ScriptView) writeModifySQLForAColumn(attrTypeOld, attrTypeNew *sysl.Typ
 	}
 	datatype := ""
 	fkName := strings.ToUpper(tableName + "_" + attrName + "_FK")
-	if typeRefNew != nil {
-		refTable, refColumn, isForeignKey := foreignKeyTarget(attrTypeNew)
-		oldTable, oldColumn, _ := foreignKeyTarget(attrTypeOld)
+	if isForeignKeyNew {
 		datatype = visitedAttributes[refTable+"."+refColumn]
-		if !isForeignKey {
-			v.warnf("table %s: the type of column %s is not a <table>.<column> reference; no foreign key is generated",
-				tableName, attrName)
-		} else if typeRefOld == nil {
+		if !isForeignKeyOld {
 			// typeref added. Add Foreign Key Constraint
 			v.stringBuilder.WriteString(fmt.Sprintf("ALTER TABLE %s ALTER COLUMN %s TYPE %s;\n",
 				tableName, attrName, datatype))
@@ -203,10 +197,14 @@ func (v *ScriptView) writeModifySQLForAColumn(attrTypeOld, attrTypeNew *sysl.Typ
 				tableName, attrName, refTable, refColumn))
 		}
 	} else {
+		if attrTypeNew.GetTypeRef() != nil {
+			v.warnf("table %s: the type of column %s is not a <table>.<column> reference; no foreign key is generated",
+				tableName, attrName)
+		}
 		syslDataType, attributeSize := getDataTypeAndSize(attrTypeNew)
 		datatype = v.getPostgresDataTypes(syslDataType, attributeSize)
 		datatypeOld := ""
-		if typeRefOld != nil {
+		if isForeignKeyOld {
 			// typeref removed and datatype has been added. Remove foreign key reference.
 			v.stringBuilder.WriteString(fmt.Sprintf("ALTER TABLE %s DROP CONSTRAINT %s;\n", tableName, fkName))
 		} else {
